@@ -293,22 +293,30 @@ func runC16(cases string, res *Result) {
 		if c.str("tag") != "exhaustive-01xy" && c.str("tag") != "exhaustive1" && len(data) < 200 {
 			res.sample(map[string]interface{}{"malformed": hx(data), "model_ok": c["ok"], "unmodelled": c["unmodelled"]}, 16)
 		}
-		alloc := c.num("alloc")
+		// memory: the model says how many bytes the reader asks make() for in total (never more than the
+		// input); where a reader without the length checks would ask for 256 MB or more, measure
+		naive := c.num("naive")
 		var m0 runtime.MemStats
-		if alloc >= 1<<28 {
+		if naive >= 1<<28 {
 			runtime.ReadMemStats(&m0)
 		}
 		got, err, ok := deser("malformed/"+tag, c, []byte(data))
-		if alloc >= 1<<28 {
+		if naive >= 1<<28 {
 			var m1 runtime.MemStats
 			runtime.ReadMemStats(&m1)
-			if d := m1.TotalAlloc - m0.TotalAlloc; d > maxAlloc {
+			d := m1.TotalAlloc - m0.TotalAlloc
+			res.Hist["malformed:allocation-measured"]++
+			if d > maxAlloc {
 				maxAlloc, maxAllocIn = d, hx(data)
 				if len(data) > 40 {
 					maxAllocIn = hx(data[:40]) + fmt.Sprintf("..(%d bytes)", len(data))
 				}
 			}
-			debug.FreeOSMemory()
+			if d >= 1<<27 {
+				disagree("malformed/"+tag+"/allocation", c, fmt.Sprintf("at most %d bytes requested (model), input of %d bytes", c.num("alloc"), len(data)),
+					fmt.Sprintf("%d bytes allocated during the call", d), "the reader allocates from a length prefix without comparing it with the remaining input")
+				debug.FreeOSMemory()
+			}
 		}
 		if !ok {
 			return
@@ -556,10 +564,10 @@ func runC16(cases string, res *Result) {
 	})
 	res.Exhaustive = []string{"malformed:exhaustive1", "malformed:exhaustive-01xy"}
 	if truncAccepted > 0 {
-		res.Notes = append(res.Notes, fmt.Sprintf("%d truncated serialisations were ACCEPTED without error as the empty record, as the model predicts (gob fallback: the low byte of the name length, 0x24 or 0x2a, is read as a bootstrap gob type id); shortest: %s", truncAccepted, truncAcceptedEx))
+		res.Notes = append(res.Notes, fmt.Sprintf("%d truncated serialisations were accepted (model and implementation agree); shortest: %s", truncAccepted, truncAcceptedEx))
 	}
 	if maxAlloc > 0 {
-		res.Notes = append(res.Notes, fmt.Sprintf("largest allocation caused by one malformed input: %d bytes (make([]byte, n) with n taken from the stream before the remaining input is checked); input %s", maxAlloc, maxAllocIn))
+		res.Notes = append(res.Notes, fmt.Sprintf("largest allocation measured for one malformed input whose length prefix claims 256 MB or more: %d bytes; input %s", maxAlloc, maxAllocIn))
 	}
 	res.Notes = append(res.Notes, fmt.Sprintf("%d records also went through the old gob format and came back equal", gobOK))
 }
